@@ -16,8 +16,10 @@ struct Case {
     params: String,
     regime: &'static str,
     sample: Box<dyn Fn() -> f64 + Sync + Send>,
+    /// the same object's bulk draws: `sample_n(n)` or, flattened, `sample_matrix(n, 1)`
+    bulk: Option<std::sync::Arc<dyn Fn(usize, bool) -> Vec<f64> + Sync + Send>>,
     decl: Decl,
-    cdf: Box<dyn Fn(f64) -> f64 + Sync + Send>,
+    cdf: std::sync::Arc<dyn Fn(f64) -> f64 + Sync + Send>,
     support: (f64, f64),
     /// Some(value): the law is a point mass
     degenerate: Option<f64>,
@@ -40,57 +42,57 @@ fn cases(run: &Run) -> Vec<Case> {
     // one-draw inverse-CDF samplers
     for &(a, b) in &[(-2.0, 6.0), (0.0, 1.0), (1e3, 1e3 + 0.5)] {
         let d = Uniform::new(a, b);
-        v.push(Case { law: "Uniform", params: format!("({}, {})", a, b), regime: "inverse-cdf", sample: Box::new(move || d.sample()), decl: decl(run, 1, 2, false), cdf: Box::new(move |x| ((x - a) / (b - a)).clamp(0.0, 1.0)), support: (a, b), degenerate: None });
+        v.push(Case { law: "Uniform", params: format!("({}, {})", a, b), regime: "inverse-cdf", sample: Box::new(move || d.sample()), bulk: Some(std::sync::Arc::new(move |n, mat| if mat { d.sample_matrix(n, 1).data.v.clone() } else { d.sample_n(n).to_vec() })), decl: decl(run, 1, 2, false), cdf: std::sync::Arc::new(move |x| ((x - a) / (b - a)).clamp(0.0, 1.0)), support: (a, b), degenerate: None });
     }
     {
         let d = Uniform::new(3.0, 3.0);
-        v.push(Case { law: "Uniform", params: "(3, 3)".into(), regime: "degenerate-equal-bounds", sample: Box::new(move || d.sample()), decl: decl(run, 1, 2, false), cdf: Box::new(|x| if x >= 3.0 { 1.0 } else { 0.0 }), support: (3.0, 3.0), degenerate: Some(3.0) });
+        v.push(Case { law: "Uniform", params: "(3, 3)".into(), regime: "degenerate-equal-bounds", sample: Box::new(move || d.sample()), bulk: Some(std::sync::Arc::new(move |n, mat| if mat { d.sample_matrix(n, 1).data.v.clone() } else { d.sample_n(n).to_vec() })), decl: decl(run, 1, 2, false), cdf: std::sync::Arc::new(|x| if x >= 3.0 { 1.0 } else { 0.0 }), support: (3.0, 3.0), degenerate: Some(3.0) });
     }
     for &l in &[1e-3, 1.0, 5.0, 1e3] {
         let d = Exponential::new(l);
-        v.push(Case { law: "Exponential", params: format!("({})", l), regime: "inverse-cdf", sample: Box::new(move || d.sample()), decl: decl(run, 1, 2, false), cdf: Box::new(move |x| if x <= 0.0 { 0.0 } else { -c_expm1(-l * x) }), support: (0.0, inf), degenerate: None });
+        v.push(Case { law: "Exponential", params: format!("({})", l), regime: "inverse-cdf", sample: Box::new(move || d.sample()), bulk: Some(std::sync::Arc::new(move |n, mat| if mat { d.sample_matrix(n, 1).data.v.clone() } else { d.sample_n(n).to_vec() })), decl: decl(run, 1, 2, false), cdf: std::sync::Arc::new(move |x| if x <= 0.0 { 0.0 } else { -c_expm1(-l * x) }), support: (0.0, inf), degenerate: None });
     }
     for &(m, b) in &[(0.0, 1.0), (-1e3, 10.0), (2.0, 0.5)] {
         let d = Gumbel::new(m, b);
-        v.push(Case { law: "Gumbel", params: format!("({}, {})", m, b), regime: "inverse-cdf", sample: Box::new(move || d.sample()), decl: decl(run, 1, 2, false), cdf: Box::new(move |x| (-(-(x - m) / b).exp()).exp()), support: (-inf, inf), degenerate: None });
+        v.push(Case { law: "Gumbel", params: format!("({}, {})", m, b), regime: "inverse-cdf", sample: Box::new(move || d.sample()), bulk: Some(std::sync::Arc::new(move |n, mat| if mat { d.sample_matrix(n, 1).data.v.clone() } else { d.sample_n(n).to_vec() })), decl: decl(run, 1, 2, false), cdf: std::sync::Arc::new(move |x| (-(-(x - m) / b).exp()).exp()), support: (-inf, inf), degenerate: None });
     }
     for &(a, xm) in &[(1.0, 1.0), (4.0, 4.0), (0.5, 2.0), (20.0, 1e-3)] {
         let d = Pareto::new(a, xm);
-        v.push(Case { law: "Pareto", params: format!("({}, {})", a, xm), regime: "inverse-cdf", sample: Box::new(move || d.sample()), decl: decl(run, 1, 2, false), cdf: Box::new(move |x| if x < xm { 0.0 } else { 1.0 - (xm / x).powf(a) }), support: (xm, inf), degenerate: None });
+        v.push(Case { law: "Pareto", params: format!("({}, {})", a, xm), regime: "inverse-cdf", sample: Box::new(move || d.sample()), bulk: Some(std::sync::Arc::new(move |n, mat| if mat { d.sample_matrix(n, 1).data.v.clone() } else { d.sample_n(n).to_vec() })), decl: decl(run, 1, 2, false), cdf: std::sync::Arc::new(move |x| if x < xm { 0.0 } else { 1.0 - (xm / x).powf(a) }), support: (xm, inf), degenerate: None });
     }
     for &p in &[0.0, 0.25, 0.75, 1.0] {
         let d = Bernoulli::new(p);
-        v.push(Case { law: "Bernoulli", params: format!("({})", p), regime: if p == 0.0 || p == 1.0 { "p-in-{0,1}" } else { "inverse-cdf" }, sample: Box::new(move || d.sample()), decl: decl(run, 1, 2, true), cdf: Box::new(move |x| if x < 0.0 { 0.0 } else if x < 1.0 { 1.0 - p } else { 1.0 }), support: (0.0, 1.0), degenerate: if p == 0.0 { Some(0.0) } else if p == 1.0 { Some(1.0) } else { None } });
+        v.push(Case { law: "Bernoulli", params: format!("({})", p), regime: if p == 0.0 || p == 1.0 { "p-in-{0,1}" } else { "inverse-cdf" }, sample: Box::new(move || d.sample()), bulk: Some(std::sync::Arc::new(move |n, mat| if mat { d.sample_matrix(n, 1).data.v.clone() } else { d.sample_n(n).to_vec() })), decl: decl(run, 1, 2, true), cdf: std::sync::Arc::new(move |x| if x < 0.0 { 0.0 } else if x < 1.0 { 1.0 - p } else { 1.0 }), support: (0.0, 1.0), degenerate: if p == 0.0 { Some(0.0) } else if p == 1.0 { Some(1.0) } else { None } });
     }
-    for &(a, b) in &[(-2i64, 6i64), (0, 1), (3, 3), (-5, -5), (0, 40)] {
+    for &(a, b) in &[(-2i64, 6i64), (0, 1), (3, 3), (-5, -5), (0, 40), (0, 999), (-70_000, 70_000), (0, 399_999_999), (1, 1_000_000_000), (0, 2_999_999_999), (-2_147_483_648, 2_147_483_648), (-5_000_000_000, 3_589_934_591)] {
         let d = DiscreteUniform::new(a, b);
         let n = (b - a + 1) as f64;
-        v.push(Case { law: "DiscreteUniform", params: format!("({}, {})", a, b), regime: if a == b { "degenerate-equal-bounds" } else { "bounded-integer" }, sample: Box::new(move || d.sample()), decl: decl(run, 1, 2, true), cdf: Box::new(move |x| (((x.floor() - a as f64 + 1.0) / n).clamp(0.0, 1.0))), support: (a as f64, b as f64), degenerate: if a == b { Some(a as f64) } else { None } });
+        v.push(Case { law: "DiscreteUniform", params: format!("({}, {})", a, b), regime: if a == b { "degenerate-equal-bounds" } else { "bounded-integer" }, sample: Box::new(move || d.sample()), bulk: Some(std::sync::Arc::new(move |n, mat| if mat { d.sample_matrix(n, 1).data.v.clone() } else { d.sample_n(n).to_vec() })), decl: decl(run, 1, 2, true), cdf: std::sync::Arc::new(move |x| (((x.floor() - a as f64 + 1.0) / n).clamp(0.0, 1.0))), support: (a as f64, b as f64), degenerate: if a == b { Some(a as f64) } else { None } });
     }
     // Normal (ziggurat)
     for &(m, s) in &[(0.0, 1.0), (10.0, 20.0), (-1e3, 1e-3)] {
         let d = Normal::new(m, s);
-        v.push(Case { law: "Normal", params: format!("({}, {})", m, s), regime: "ziggurat", sample: Box::new(move || d.sample()), decl: decl(run, 1, 2, false), cdf: Box::new(move |x| norm_cdf((x - m) / s)), support: (-inf, inf), degenerate: None });
+        v.push(Case { law: "Normal", params: format!("({}, {})", m, s), regime: "ziggurat", sample: Box::new(move || d.sample()), bulk: Some(std::sync::Arc::new(move |n, mat| if mat { d.sample_matrix(n, 1).data.v.clone() } else { d.sample_n(n).to_vec() })), decl: decl(run, 1, 2, false), cdf: std::sync::Arc::new(move |x| norm_cdf((x - m) / s)), support: (-inf, inf), degenerate: None });
     }
     {
         let d = Normal::new(2.5, 0.0);
-        v.push(Case { law: "Normal", params: "(2.5, 0)".into(), regime: "degenerate-sigma-0", sample: Box::new(move || d.sample()), decl: decl(run, 1, 2, false), cdf: Box::new(|x| if x >= 2.5 { 1.0 } else { 0.0 }), support: (2.5, 2.5), degenerate: Some(2.5) });
+        v.push(Case { law: "Normal", params: "(2.5, 0)".into(), regime: "degenerate-sigma-0", sample: Box::new(move || d.sample()), bulk: Some(std::sync::Arc::new(move |n, mat| if mat { d.sample_matrix(n, 1).data.v.clone() } else { d.sample_n(n).to_vec() })), decl: decl(run, 1, 2, false), cdf: std::sync::Arc::new(|x| if x >= 2.5 { 1.0 } else { 0.0 }), support: (2.5, 2.5), degenerate: Some(2.5) });
     }
     // Gamma and what is built on it
     for &(a, b) in &[(1.0, 1.0), (1.5, 1.0), (2.0, 4.0), (5.0, 1.0), (100.0, 1.0)] {
         let d = Gamma::new(a, b);
         let regime = if a < 1.0 / 3.0 { "shape<1/3" } else if a < 1.0 { "shape<1" } else { "shape>=1" };
-        v.push(Case { law: "Gamma", params: format!("({}, {})", a, b), regime, sample: Box::new(move || d.sample()), decl: decl(run, 1, 4, false), cdf: Box::new(move |x| gamma_cdf(a, b, x)), support: (0.0, inf), degenerate: None });
+        v.push(Case { law: "Gamma", params: format!("({}, {})", a, b), regime, sample: Box::new(move || d.sample()), bulk: Some(std::sync::Arc::new(move |n, mat| if mat { d.sample_matrix(n, 1).data.v.clone() } else { d.sample_n(n).to_vec() })), decl: decl(run, 1, 4, false), cdf: std::sync::Arc::new(move |x| gamma_cdf(a, b, x)), support: (0.0, inf), degenerate: None });
     }
     for &k in &[2usize, 5, 50] {
         let d = ChiSquared::new(k);
         let regime = if k < 2 { "dof=1 (gamma shape<1)" } else { "gamma shape>=1" };
-        v.push(Case { law: "ChiSquared", params: format!("({})", k), regime, sample: Box::new(move || d.sample()), decl: decl(run, 1, 4, false), cdf: Box::new(move |x| chi2_cdf(k as f64, x)), support: (0.0, inf), degenerate: None });
+        v.push(Case { law: "ChiSquared", params: format!("({})", k), regime, sample: Box::new(move || d.sample()), bulk: Some(std::sync::Arc::new(move |n, mat| if mat { d.sample_matrix(n, 1).data.v.clone() } else { d.sample_n(n).to_vec() })), decl: decl(run, 1, 4, false), cdf: std::sync::Arc::new(move |x| chi2_cdf(k as f64, x)), support: (0.0, inf), degenerate: None });
     }
     // Poisson PTRS
     for &l in &[10.0, 42.0, 149.0, 150.0, 500.0, 1500.0, 20000.0] {
         let d = Poisson::new(l);
-        v.push(Case { law: "Poisson", params: format!("({})", l), regime: if l >= 150.0 { "rate>=150 (PTRS)" } else { "rate>=10 (PTRS)" }, sample: Box::new(move || d.sample()), decl: decl(run, 0, 2, true), cdf: Box::new(move |x| poisson_cdf(l, x)), support: (0.0, inf), degenerate: None });
+        v.push(Case { law: "Poisson", params: format!("({})", l), regime: if l >= 150.0 { "rate>=150 (PTRS)" } else { "rate>=10 (PTRS)" }, sample: Box::new(move || d.sample()), bulk: Some(std::sync::Arc::new(move |n, mat| if mat { d.sample_matrix(n, 1).data.v.clone() } else { d.sample_n(n).to_vec() })), decl: decl(run, 0, 2, true), cdf: std::sync::Arc::new(move |x| poisson_cdf(l, x)), support: (0.0, inf), degenerate: None });
     }
     // Binomial
     let mut bin_cases: Vec<(u64, f64)> = vec![(63, 0.5), (64, 0.5), (65, 0.5), (16, 0.5)];
@@ -107,7 +109,7 @@ fn cases(run: &Run) -> Vec<Case> {
         if regime.starts_with("BTPE") && !run.thorough() {
             dc.gu[0] = 1 << 11; // two value-producing draws: the first one coarser in the quick tier
         }
-        v.push(Case { law: "Binomial", params: format!("({}, {})", n, p), regime, sample: Box::new(move || d.sample()), decl: dc, cdf: Box::new(move |x| binom_cdf(n as f64, p, x)), support: (0.0, n as f64), degenerate });
+        v.push(Case { law: "Binomial", params: format!("({}, {})", n, p), regime, sample: Box::new(move || d.sample()), bulk: Some(std::sync::Arc::new(move |n, mat| if mat { d.sample_matrix(n, 1).data.v.clone() } else { d.sample_n(n).to_vec() })), decl: dc, cdf: std::sync::Arc::new(move |x| binom_cdf(n as f64, p, x)), support: (0.0, n as f64), degenerate });
     }
     v
 }
@@ -208,6 +210,44 @@ fn confirm_or_clear(run: &Run, key: &str, what: &str, engine_says: String, sampl
         run.cap(&format!("{}: the exact engine could not decide or disagreed ({}), the property's criterion on {} seeded draws holds (sup-distance {:.5} ≤ {:.5}); draw structure outside the engine's model — decided by the sampled criterion only", what, crate::common::run::truncate(&engine_says, 160), sv.n, sv.d, sv.eps));
         run.regime("decided by the sampled criterion (engine inconclusive)");
         true
+    }
+}
+
+/// bulk draws follow the same law: `sample_n(1)` through the exact engine (every scripted answer), and the
+/// pooled values of many small bulk calls of odd and even sizes (sample_n and sample_matrix) by the
+/// property's criterion on a seeded stream
+fn bulk_case(run: &Run, c: &Case, eps: f64) {
+    let Some(b) = c.bulk.clone() else { return };
+    let law: &'static str = Box::leak(format!("{}.sample_n(1)", c.law).into_boxed_str());
+    let b1 = b.clone();
+    let one = Case { law, params: c.params.clone(), regime: c.regime, sample: Box::new(move || b1(1, false)[0]), bulk: None, decl: c.decl, cdf: c.cdf.clone(), support: c.support, degenerate: c.degenerate };
+    run_case(run, &one, eps);
+    if c.degenerate.is_some() {
+        return;
+    }
+    let buf = std::sync::Mutex::new((Vec::<f64>::new(), 0usize));
+    let pooled = move || {
+        let mut g = buf.lock().unwrap();
+        if g.0.is_empty() {
+            let k = g.1;
+            g.1 += 1;
+            // sizes 1, 2, 3, 5, 7, 4, 9 by sample_n; 1, 3, 5 by sample_matrix
+            let (n, mat) = [(1, false), (3, false), (2, false), (5, false), (3, true), (7, false), (1, true), (4, false), (9, false), (5, true)][k % 10];
+            let mut v = b(n, mat);
+            v.reverse();
+            g.0 = v;
+        }
+        g.0.pop().unwrap_or(f64::NAN)
+    };
+    let what = format!("{}{} small bulk draws (sample_n of 1..9, sample_matrix of 1..5 rows), values pooled", c.law, c.params);
+    let sv = stream_check(&pooled, &*c.cdf, c.support, c.decl.discrete, 0xB01C ^ crate::common::run::hash_of(&what) >> 20);
+    run.case();
+    run.trs(sv.n as u64);
+    run.ok();
+    if sv.fails() {
+        run.violate(&format!("{}/bulk-small/law", c.law), || format!("{}: {}", what, sv.describe()));
+    } else {
+        run.regime("bulk-small:stream-dkw");
     }
 }
 
@@ -887,6 +927,7 @@ pub fn run(run: &Run) {
         sc.spawn(|_| {
             cs.par_iter().for_each(|c| {
                 run_case(run, c, eps);
+                bulk_case(run, c, eps);
             });
         });
         sc.spawn(|_| {
